@@ -1,5 +1,7 @@
 import UrcuVerif.Props.SrcLfht
 import UrcuVerif.Src.LfhtFrame
+import UrcuVerif.Src.LfhtWalkNext
+import UrcuVerif.Src.LfhtWalkDup
 /-!
 # Source IR of `src/rculfhash.c` ⊑ L2, part 2: non-vacuity of `Props/SrcLfht.lean`, frame lemma, further functions
 -/
@@ -94,3 +96,98 @@ example : ∃ out, exec 3 Gen.Src.«lfht._cds_lfht_del» delEnv delInp = .ok out
   simp [absEv, lrun, lstep, delX, lgcPos, retPc, mk, h0]
 
 end UrcuVerif.Props.SrcLfht
+
+-- ==========================================================================================================
+-- traversals: cds_lfht_lookup / cds_lfht_next_duplicate / cds_lfht_next / cds_lfht_first
+-- ==========================================================================================================
+namespace UrcuVerif.Props.SrcLfhtWalk
+open UrcuVerif UrcuVerif.Src UrcuVerif.Lfht.Conc UrcuVerif.Src.LfhtW UrcuVerif.Src.LfhtWR
+open UrcuVerif.Src.LfhtR (RevView encW encP)
+
+/-- the local automaton of the traversals against the real L2 `step`: every non-crashing step with label `ldSize` (at
+pc `lSize`), `ldHeadL`, `ldFirst`, `ldWalk`, `ldAssertW` is the local run `decor s t L` (values of the global state; the
+result of `match` is `key cur == ky`), same `Out` -/
+theorem lfht_walk_proj_step (c : Cfg) (s s' : State) (t : Nat) (L : Label) (o o0 : Lfht.Conc.Out)
+    (hL : inScope L = true) (hsz : L = .ldSize → (s.th t).pc = .lSize)
+    (h : step c s t L = some (s', o)) (hnc : o ≠ .crash) :
+    lrun s.rev (proj s t o0) (decor s t L) = some (proj s' t o) :=
+  proj_step c s s' t L o o0 hL hsz h hnc
+
+/-- `cds_lfht_lookup`: labels `ldSize` (= `bit_reverse_ulong`; load of `ht->size`; `bucket_at`), `ldHeadL`, `ldWalk`*
+(each load followed by `match` when L2's `found` needs the key), `ldAssertW`; returned iterator = L2's `Out.iter` -/
+theorem cds_lfht_lookup_refines (fuel : Nat) (rev : Nat → Nat) (env : Env) (inp : List Val) (x : Thr)
+    (o0 : Lfht.Conc.Out) (ht it : Nat) (fp : Val)
+    (hht : env.vars "ht" = some (.ptr (.obj ht))) (hhash : env.vars "hash" = some (.int x.hs))
+    (hkey : env.vars "key" = some (.int x.ky)) (hiter : env.vars "iter" = some (.ptr (.obj it)))
+    (hfp : env.priv (.field (.obj ht) "bucket_at") = some fp) (hrev : RevView rev env.priv)
+    (hpc : x.pc = .lSize) (hwk : x.wk = .lookup)
+    (hO : OracleOk rev { x := x, pend := .none, out := o0 } inp) :
+    ∃ out, exec fuel Gen.Src.«lfht.cds_lfht_lookup» env inp = .ok out ∧
+      ∃ ls', lrun rev { x := x, pend := .none, out := o0 } (out.events.map absEv) = some ls' ∧
+        (out.ctl = .blocked ∨ out.ctl = .fuel ∨
+          ∃ n w, out.ctl = .normal ∧ ls'.out = .iter n w ∧ ls'.x.pc = .idle ∧ ls'.x.itn = n ∧ ls'.x.itx = w ∧
+            ls'.pend = .none ∧ out.env.priv (.field (.obj it) "node") = some (encP n) ∧
+            out.env.priv (.field (.obj it) "next") = some (encW w)) :=
+  lookup_exec fuel rev env inp x o0 ht it fp hht hhash hkey hiter hfp hrev hpc hwk hO
+
+/-- `cds_lfht_next_duplicate`: `x0` = L2's record after `callDup k` -/
+theorem cds_lfht_next_duplicate_refines (fuel : Nat) (rev : Nat → Nat) (env : Env) (inp : List Val) (x0 : Thr)
+    (itn : Nat) (itx : W) (it k : Nat)
+    (hiter : env.vars "iter" = some (.ptr (.obj it))) (hkey : env.vars "key" = some (.int k))
+    (hin : env.priv (.field (.obj it) "node") = some (.ptr (.obj itn))) (hitn : itn ≠ 0)
+    (hix : env.priv (.field (.obj it) "next") = some (encW itx)) (hrev : RevView rev env.priv)
+    (hwk : x0.wk = .dup) (hrh : x0.rh = rev itn) (hky : x0.ky = k)
+    (hO : OracleOk rev (ofPair (lwalkPos rev x0 itx.ptr)) inp) :
+    ∃ out, exec fuel Gen.Src.«lfht.cds_lfht_next_duplicate» env inp = .ok out ∧
+      ∃ ls', lrun rev (ofPair (lwalkPos rev x0 itx.ptr)) (out.events.map absEv) = some ls' ∧ WalkDone it out ls' :=
+  dup_exec fuel rev env inp x0 itn itx it k hiter hkey hin hitn hix hrev hwk hrh hky hO
+
+/-- `cds_lfht_next`: `x0` = L2's record after `callNext` -/
+theorem cds_lfht_next_refines (fuel : Nat) (rev : Nat → Nat) (env : Env) (inp : List Val) (x0 : Thr) (wi : W) (it : Nat)
+    (hiter : env.vars "iter" = some (.ptr (.obj it)))
+    (hnx : env.priv (.field (.obj it) "next") = some (encW wi)) (hwk : x0.wk = .next)
+    (hO : OracleOk rev (ofPair (lwalkPos rev x0 wi.ptr)) inp) :
+    ∃ out, exec fuel Gen.Src.«lfht.cds_lfht_next» env inp = .ok out ∧
+      ∃ ls', lrun rev (ofPair (lwalkPos rev x0 wi.ptr)) (out.events.map absEv) = some ls' ∧ WalkDone it out ls' :=
+  next_exec fuel rev env inp x0 wi it _ rfl hiter hnx hwk hO
+
+/-- `cds_lfht_first`: from L2's state after `callFirst` (pc `fHead`); label `ldFirst` = `bucket_at(ht, 0)` + load -/
+theorem cds_lfht_first_refines (fuel : Nat) (rev : Nat → Nat) (env : Env) (inp : List Val) (x : Thr)
+    (o0 : Lfht.Conc.Out) (ht it : Nat) (fp : Val)
+    (hht : env.vars "ht" = some (.ptr (.obj ht))) (hiter : env.vars "iter" = some (.ptr (.obj it)))
+    (hfp : env.priv (.field (.obj ht) "bucket_at") = some fp)
+    (hpc : x.pc = .fHead) (hwk : x.wk = .next)
+    (hO : OracleOk rev { x := x, pend := .none, out := o0 } inp) :
+    ∃ out, exec fuel Gen.Src.«lfht.cds_lfht_first» env inp = .ok out ∧
+      ∃ ls', lrun rev { x := x, pend := .none, out := o0 } (out.events.map absEv) = some ls' ∧ WalkDone it out ls' :=
+  first_exec fuel rev env inp x o0 ht it fp hht hiter hfp hpc hwk hO
+
+-- non-vacuity: bucket 1 → node 5 (reverse hash 5, key 7) → END; lookup of (rh = 5, key 7) finds node 5
+def lkEnv : Env :=
+  { vars := fun y => if y = "ht" then some (.ptr (.obj 100)) else if y = "hash" then some (.int 0)
+      else if y = "key" then some (.int 7) else if y = "iter" then some (.ptr (.obj 200)) else none,
+    priv := UrcuVerif.Props.SrcLfht.exPriv }
+def lkX : Thr := { pc := .lSize, op := .lookup, wk := .lookup, hs := 0, rh := 5, ky := 7 }
+/-- `bit_reverse_ulong` = 5; `ht->size` = 1; `bucket_at(ht, 0)` = node 1; `1->next` = 5; `5->next` = END; `match` = 1;
+the assertion load of `5->next` = END -/
+def lkInp : List Val := [.int 5, .int 1, .ptr (.obj 1), encW { ptr := 5 }, encW {}, .int 1, encW {}]
+
+example : OracleOk (fun n => n) { x := lkX, pend := .none, out := .unit } lkInp := by
+  simp [OracleOk, lkInp, lkX, active, obsLabel, lstep, lwalkPos, lwalkRet, ofPair, needsMatch, foundNoMatch]
+
+set_option maxRecDepth 4000 in
+/-- the run: 7 events, the iterator `(5, END)` is stored in `*iter` and is L2's `Out.iter 5 {}` -/
+example : ∃ out, exec 3 Gen.Src.«lfht.cds_lfht_lookup» lkEnv lkInp = .ok out ∧
+    out.events.length = 7 ∧ out.ctl = .normal ∧
+    out.env.priv (.field (.obj 200) "node") = some (.ptr (.obj 5)) ∧
+    out.env.priv (.field (.obj 200) "next") = some (.int 0) ∧
+    ∃ ls', lrun (fun n => n) { x := lkX, pend := .none, out := .unit } (out.events.map absEv) = some ls' ∧
+      ls'.x.pc = .idle ∧ ls'.out = .iter 5 {} := by
+  lexec [exec_call, Gen.Src.«lfht.cds_lfht_lookup», Gen.Src.«lfht.lookup_bucket», Gen.Src.«lfht.bucket_at»,
+    Gen.Src.«lfht.is_bucket», Gen.Src.«lfht.is_removed», Gen.Src.«lfht.clear_flag», Gen.Src.«lfht.is_end»,
+    lkEnv, lkInp, iterate, UrcuVerif.Props.SrcLfht.exPriv, encP]
+  have h0 : UrcuVerif.Src.LfhtR.decW (.int 0) = some {} := by decide
+  have e0 : encW {} = .int 0 := rfl
+  simp [LfhtWR.absEv, lrun, lstep, lkX, lwalkPos, lwalkRet, ofPair, needsMatch, foundNoMatch, h0, e0]
+
+end UrcuVerif.Props.SrcLfhtWalk
